@@ -835,6 +835,13 @@ def read_store_chain(base, ti):
             continue
         if (i == full or (isinstance(i, sp.Tuple) and all(x == full for x in i.args))) and (v.is_number or is_scalar_term(v)):
             return v
+        # a whole row was stored: table[k, :] = row; element (k, j) is row[j], rows with another number are skipped
+        if isinstance(i, sp.Tuple) and isinstance(ti, sp.Tuple) and len(i.args) == 2 == len(ti.args) and i.args[1] == full \
+                and getattr(i.args[0], "is_Integer", False) and getattr(ti.args[0], "is_Integer", False) and fname(ti.args[1]) != "slc":
+            if i.args[0] != ti.args[0]:
+                cur = b
+                continue
+            return v if (v.is_number or is_scalar_term(v)) else element_of(None, v, ti.args[1])
         return None
     if fname(cur) == "zeros" or cur == 0:
         return sp.Integer(0)
